@@ -158,6 +158,9 @@ func Doubling(r *fw.Rand) string {
 			"a=[[1,2]]; i=0; while i < 60 { a[0][0:0] = a[0]; i = i + 1 }; 1",
 			"func g(v) { v[0:0] = v; v }; a=[1,2]; i=0; while i < 60 { a = g(a); i = i + 1 }; 1",
 			"a=[1,2]; i=0; while i < 60 { a[a.len():100000] = a; i = i + 1 }; 1",
+			"a=[1,2]; i=0; while i < 60 { a[a.len():9223372036854775807] = a; i = i + 1 }; 1",
+			"a=[1,2]; i=0; while i < 60 { a[a.len():4611686018427387904] = a + a; i = i + 1 }; 1",
+			"a=[1,2]; i=0; while i < 60 { a[(0-9223372036854775807):0] = a; i = i + 1 }; 1",
 			"a=[0]*512; a[512:9999] = a; a[600:99999999] = a; a.len()",
 			"a=[1,2]; i=0; while i < 60 { a[100000:] = a; i = i + 1 }; 1",
 			"a=[1,2]; i=0; while i < 60 { a[(0-100000):0] = a; i = i + 1 }; 1",
@@ -179,11 +182,11 @@ func Doubling(r *fw.Rand) string {
 		// expensive computed values read from scopes several calls below the one that owns them
 		z := r.Pick([]string{"&z = 2500d1", "&z = 400d1 + 400d1", "&z = [1..400].sum() + 300d1"})
 		return z + "; " + r.Pick([]string{
-			"func g() { z }; func f() { g() + g() }; while 1 { f() }",
-			"func f() { &y = z; y }; while 1 { f() }",
-			"func g() { z }; func f() { g() }; func e() { f() }; i = 0; while i < 100000 { e(); i = i + 1 }",
-			"&y = z; &x = y; func f() { x }; while 1 { f() }",
-			"func f() { `{z}{z}` }; func e() { f() }; while 1 { e() }",
+			"func zg() { z }; func zf() { zg() + zg() }; while 1 { zf() }",
+			"func zf() { &y = z; y }; while 1 { zf() }",
+			"func zg() { z }; func zf() { zg() }; func ze() { zf() }; i = 0; while i < 100000 { ze(); i = i + 1 }",
+			"&y = z; &x = y; func zf() { x }; while 1 { zf() }",
+			"func zf() { `{z}{z}` }; func ze() { zf() }; while 1 { ze() }",
 		})
 	}
 	switch r.Intn(12) {
